@@ -77,6 +77,13 @@ PROPS = {
         units=[
         unit("c07", "proxy", PROXY_COMMON + ["proxy/c07_test.go"], "^TestVerifC07"),
     ], layers={"quick": ["c07-request", "c07-response"], "thorough": ["c07-request", "c07-response"]}),
+    "C08": dict(level="exploration", engine="benum",
+        technique="bounded-exhaustive product of header configurations x connection kinds x every subset of forged managed headers through the real HTTPProxy (and real plain/TLS listeners for websockets)",
+        level_text="Every header-related configuration (72 quick / 144 thorough) x plain/TLS x all 2^8 subsets of client-forged managed headers (+ repeated and lower-case spellings) x Host with/without port x IPv4/IPv6 peer, plus websocket upgrades over real plain and TLS listeners, is served by the real proxy to a recording upstream and checked against the six clauses of the statement.",
+        level_note="X-Forwarded-Proto and Forwarded are only asserted when the client sent neither (fabio documents deriving one from the other for chained proxies); the two clauses that collide when the configured client-ip header is X-Real-Ip or X-Forwarded-For are not asserted for those names. TLS state for non-websocket cases is a synthetic tls.ConnectionState.",
+        units=[
+        unit("c08", "proxy", PROXY_COMMON + ["proxy/c08_test.go"], "^TestVerifC08"),
+    ], layers={"quick": ["c08-headers", "c08-websocket"], "thorough": ["c08-headers", "c08-websocket"]}),
 }
 
 def layer_unit(pid, layer):
